@@ -60,6 +60,19 @@ func (m *model) apply(mu Mut) bool {
 		return m.applyACfg(mu)
 	case "dir":
 		return m.applyDir(mu)
+	case "mod":
+		if m.modules == "" {
+			return false
+		}
+		pool := func(path string) string {
+			return `[{"idx":1,"name":"1","path":` + path + `,"type":"sentence_transformers.models.Pooling"}]`
+		}
+		m.modules = map[string]string{
+			"pathup": pool(`"../1_Pooling"`), "pathabs": pool(`"/etc"`), "pathmissing": pool(`"nope"`), "pathempty": pool(`""`), "pathdot": pool(`"."`),
+			"notlist": `{"type":"x"}`, "typesnum": `[{"type":1,"path":2}]`, "nopooling": `[]`, "twopooling": pool(`"1_Pooling"`)[:len(pool(`"1_Pooling"`))-1] + "," + pool(`"x"`)[1:],
+			"null": "null", "notjson": "not json", "empty": "",
+		}[mu.Val]
+		return true
 	}
 	return false
 }
@@ -218,6 +231,15 @@ func (m *model) applyST(mu Mut) bool {
 			prod *= d
 		}
 		switch mu.Val {
+		case "zerofit": // a zero-sized tensor, consistently declared
+			e.Shape[di] = 0
+			e.Off = [2]int64{e.Off[0], e.Off[0]}
+		case "halffit": // half the rows, consistently declared
+			if e.Shape[di] < 2 {
+				return false
+			}
+			e.Off[1] = e.Off[0] + (e.Off[1]-e.Off[0])/e.Shape[di]*(e.Shape[di]/2)
+			e.Shape[di] /= 2
 		case "zero":
 			e.Shape[di] = 0
 		case "allzero":
